@@ -65,6 +65,16 @@ SAMPLING = (0.3, 0.25)
 TOL = 1e-5
 TOL_FWD = 3e-5
 TOL_PROJ = 2e-5
+# Weak exit waves, mixed state: the library regularises every Fourier coefficient with eps = 1e-9 (sqrt(sum |F + eps|^2)), i.e. a relative
+# perturbation eps/|F| that grows as the signal shrinks. Measured on the unchanged tree (seeds {0,1,2,7,12345}, 4 ROI shapes, 6 stacks each,
+# error relative to the signal scale): scale 1e-2: 9.3e-7, 1e-3: 7.8e-6, 1e-4: 7.7e-5 (= 7.7e-9/scale); single mode (no eps): 3.7e-7 at
+# every scale. Tolerance for M >= 2: max(TOL_PROJ, 2e-7/scale) = 2e-5, 2e-4, 2e-3 -> margin 21x, 26x, 26x. An amplitude FLOOR of
+# sqrt(1e-9) = 3.2e-5 instead of the per-coefficient eps gives 2-6e-2 at 1e-3 and > 0.5 at 1e-4 (>= 100x the tolerance).
+WEAK_SCALES = [1e-2, 1e-3, 1e-4]
+
+
+def proj_tol(M, scale):
+    return TOL_PROJ if M == 1 else max(TOL_PROJ, 2e-7 / scale)
 
 def all_shifts(quick=True):
     """quick: every integer pair in [-3,3]^2 and the 1/4-pixel grid in [-1,1]^2 (121 vectors, the DESIGN alphabet);
@@ -463,12 +473,12 @@ def wavelength(energy):
     return h / math.sqrt(2 * m0 * e * energy * (1 + e * energy / (2 * m0 * c * c))) * 1e10
 
 
-def build(roi, S, M, obj_type, energy, tilt, seed, thick=None, scan=(3, 2)):
+def build(roi, S, M, obj_type, energy, tilt, seed, thick=None, scan=(3, 2), sampling=None):
     with library("building a Ptychography instance"):
-        return _build(roi, S, M, obj_type, energy, tilt, seed, thick, scan)
+        return _build(roi, S, M, obj_type, energy, tilt, seed, thick, scan, sampling or SAMPLING)
 
 
-def _build(roi, S, M, obj_type, energy, tilt, seed, thick=None, scan=(3, 2)):
+def _build(roi, S, M, obj_type, energy, tilt, seed, thick=None, scan=(3, 2), SAMPLING=SAMPLING):
     """A tiny real Ptychography instance, everything seeded, public API only."""
     warnings.simplefilter("ignore")
     from quantem.core.datastructures.dataset4dstem import Dataset4dstem
@@ -511,9 +521,9 @@ def prop_chain(pt, roi):
         return [pp[s, 0].numpy().reshape(N, N).T for s in range(1, S)]
 
 
-def fresnel(roi, energy, tilt, dz):
-    kr = np.fft.fftfreq(roi[0], SAMPLING[0])[:, None]
-    kc = np.fft.fftfreq(roi[1], SAMPLING[1])[None, :]
+def fresnel(roi, energy, tilt, dz, sampling=SAMPLING):
+    kr = np.fft.fftfreq(roi[0], sampling[0])[:, None]
+    kc = np.fft.fftfreq(roi[1], sampling[1])[None, :]
     lam = wavelength(energy)
     return np.exp(-1j * np.pi * lam * dz * (kr**2 + kc**2)) * np.exp(-2j * np.pi * dz * (kr * math.tan(tilt[0] * 1e-3) + kc * math.tan(tilt[1] * 1e-3)))
 
@@ -714,7 +724,7 @@ def judge_projection(t, pt, roi, M, akind, scale, dtype, k, seed, okind="dense")
         A[:] = 0.0
     x = make_overlap(okind, M, B, roi, scale, rng)
     case = {"kind": "projection", "roi": list(roi), "M": M, "amplitudes": akind, "scale": scale, "dtype": dtype, "k": k, "overlap": okind}
-    cls = {"roi_odd_axis": bool(R % 2 or C % 2), "modes": "single" if M == 1 else "mixed", "spectrum_has_zeros": okind != "dense"}
+    cls = {"roi_odd_axis": bool(R % 2 or C % 2), "modes": "single" if M == 1 else "mixed", "spectrum_has_zeros": okind != "dense", "weak_signal": scale < 1.0}
     where = f"fourier_projection roi={roi} modes={M} overlap={okind} amplitudes={akind} scale={scale} {dtype} k={k}"
     At = torch.tensor(A, dtype=torch.float32 if dtype == "complex64" else torch.float64)
     xt = torch.tensor(x, dtype=getattr(torch, dtype))
@@ -728,13 +738,14 @@ def judge_projection(t, pt, roi, M, akind, scale, dtype, k, seed, okind="dense")
         return
     Aq = At.numpy().astype(float)
     e = float(np.abs(got - Aq).max()) / scale
-    t.stat("projection_amplitude_dev", e)
-    if e > TOL_PROJ:
+    weak = scale < 1.0
+    t.stat("projection_amplitude_dev" + (f"_scale_{scale:g}_{cls['modes']}" if weak else ""), e)
+    if e > proj_tol(M, scale):
         j = np.unravel_index(int(np.argmax(np.abs(got - Aq))), got.shape)
         t.fail({"relation": "projection_yields_measured_amplitudes", **cls}, case, f"{where}: detector amplitude of the projected wave differs from the measured amplitude by {e:.3g} (at {tuple(int(v) for v in j)}: {got[j]:.6g} vs {Aq[j]:.6g})")
     e = float((P2 - P).abs().max()) / scale
-    t.stat("projection_idempotence_dev", e)
-    if e > TOL_PROJ:
+    t.stat("projection_idempotence_dev" + (f"_scale_{scale:g}_{cls['modes']}" if weak else ""), e)
+    if e > proj_tol(M, scale):
         t.fail({"relation": "projection_idempotent", **cls}, case, f"{where}: projecting twice changes the wave by {e:.3g}")
 
 
@@ -748,10 +759,241 @@ def w_proj(item, seed=0, nseeded=2):
         raise Broken("builder did not produce the requested number of probe modes")
     for akind, scale, dtype, k in itertools.product(AMP_KINDS, [1.0, 30.0], ["complex64", "complex128"], range(nseeded)):
         judge_projection(t, pt, roi, M, akind, scale, dtype, k, seed)
+    for akind, scale, dtype, k in itertools.product(["positive", "with_zeros"], WEAK_SCALES, ["complex64", "complex128"], range(nseeded)):
+        judge_projection(t, pt, roi, M, akind, scale, dtype, k, seed)  # weak exit waves with measured amplitudes of the same scale
     if M == 1:
         for okind, akind, scale, dtype in itertools.product(OVERLAP_KINDS_DEGENERATE, ["positive", "with_zeros"], [1.0, 30.0], ["complex64", "complex128"]):
             judge_projection(t, pt, roi, M, akind, scale, dtype, 0, seed, okind)
     t.sample({"kind": "projection", "roi": list(roi), "M": M, "amplitude_kinds": AMP_KINDS}, cap=1)
+    return t
+
+
+# ----------------------------------------------------------------------------- F. call histories: a result must not depend on earlier calls
+# The parts above run as independent lattice points, so state shared BETWEEN calls (a memo keyed too coarsely, a module-level buffer) shows
+# only by accident of worker scheduling. Here the enumerated object is a history of calls from an alphabet built to COLLIDE on coarse keys:
+# equal axis lengths with different samplings, equal shapes with different data, equal index-set sizes with different contents. Every ordered
+# pair (thorough: triple) is executed from the start-up module state; the LAST call is judged by its usual identities, by agreement with the
+# same call executed alone, and - for the propagators - by the closed-form Fresnel kernel (a kernel built with another model's sampling still
+# obeys every group identity). Inputs must come back bitwise unmodified.
+HIST_ROIS = [(6, 6), (7, 10), (8, 5)]
+HIST_SAMPLINGS = [(0.3, 0.25), (0.5, 0.4)]
+TOL_KERNEL = 1e-4  # closed-form Fresnel kernel vs complex64 library kernel: worst observed 3.5e-6 (thicknesses up to 23 A); a wrong sampling gives O(1)
+_STATE = None  # start-up snapshot of module/class-level mutable state, taken in the parent before any call; inherited through fork
+
+
+def call_alphabet():
+    calls = []
+    for impl in ("torch", "numpy"):
+        for roi in HIST_ROIS:
+            calls.append(["shift", impl, list(roi), [1.0, -2.0]])
+            calls.append(["shift", impl, list(roi), [0.3, 0.7]])
+    for roi in HIST_ROIS:
+        for si in range(len(HIST_SAMPLINGS)):
+            calls.append(["prop", list(roi), si])
+    calls += [["scatter", v] for v in range(3)]
+    calls += [["proj", M, k] for M in (1, 2) for k in (0, 1)]
+    calls += [["forward", si] for si in range(len(HIST_SAMPLINGS))]
+    return calls
+
+
+def snapshot_module_state():
+    """Shallow copies of every module-level and class-level dict/list/set of the loaded quantem modules, and their lru_caches."""
+    global _STATE
+    if _STATE is not None:
+        return _STATE
+    import sys
+
+    import quantem.diffractive_imaging.ptychography  # noqa: F401  (pulls in the model modules)
+    import quantem.tomography.object_models  # noqa: F401
+
+    containers, caches = [], []
+    for name, mod in sorted(sys.modules.items()):
+        if not name.startswith("quantem") or mod is None:
+            continue
+        owners = [(name, mod)]
+        owners += [(name + "." + k, v) for k, v in sorted(vars(mod).items()) if isinstance(v, type) and getattr(v, "__module__", None) == name]
+        for oname, owner in owners:
+            for k, v in sorted(vars(owner).items()):
+                if k.startswith("__"):
+                    continue
+                if isinstance(v, (dict, list, set)):
+                    containers.append((oname + "." + k, v, type(v)(v)))
+                f = getattr(v, "__func__", v)
+                if callable(getattr(f, "cache_clear", None)):
+                    caches.append((oname + "." + k, f))
+    _STATE = {"containers": containers, "caches": caches, "modules": sorted(n for n in sys.modules if n.startswith("quantem"))}
+    return _STATE
+
+
+def restore_module_state():
+    """Start-up contents back in place; containers that appeared since (a memo created lazily) are emptied."""
+    import sys
+
+    if _STATE is None:
+        raise Broken("start-up snapshot of the module state is missing")
+    known = set()
+    for _name, obj, copy in _STATE["containers"]:
+        known.add(id(obj))
+        if isinstance(obj, dict):
+            obj.clear()
+            obj.update(copy)
+        elif isinstance(obj, list):
+            obj[:] = copy
+        else:
+            obj.clear()
+            obj.update(copy)
+    for _name, f in _STATE["caches"]:
+        f.cache_clear()
+    for name, mod in list(sys.modules.items()):
+        if not name.startswith("quantem") or mod is None:
+            continue
+        for k, v in list(vars(mod).items()):
+            if k.startswith("__") or id(v) in known:
+                continue
+            if isinstance(v, (dict, list, set)) and name not in _STATE["modules"]:
+                v.clear()  # module imported after the snapshot: its containers start empty by construction
+            f = getattr(v, "__func__", v)
+            if callable(getattr(f, "cache_clear", None)):
+                f.cache_clear()
+
+
+def do_call(call, seed, check=True):
+    """Execute one call of the alphabet on the real code. Returns (problems, output array or None): problems = [(identity, message)]."""
+    torch = _torch()
+    kind = call[0]
+    probs = []
+    if kind == "shift":
+        _, impl, roi, s = call
+        roi, s = tuple(roi), tuple(s)
+        R, C = roi
+        rng = np.random.default_rng([seed, 16, 7, R, C])
+        x = rng.normal(size=(2, R, C)) + 1j * rng.normal(size=(2, R, C))
+        x0 = x.copy()
+        pd = "float32" if impl == "torch" else "float64"
+        out = shift_apply(impl, x, [list(s)], pd)[0]
+        if not check:
+            return probs, None
+        sc = float(np.abs(x).max())
+        e = abs(float(np.sum(np.abs(out) ** 2) / np.sum(np.abs(x) ** 2)) - 1)
+        if e > TOL:
+            probs.append(("shift_preserves_intensity", f"total intensity changes by {e:.3g}"))
+        if float(s[0]).is_integer() and float(s[1]).is_integer():
+            e = float(np.abs(out - np.roll(x, (int(s[0]), int(s[1])), axis=(1, 2))).max()) / sc
+            if e > TOL:
+                probs.append(("integer_shift_is_roll", f"differs from np.roll by {e:.3g}"))
+        else:
+            back = shift_apply(impl, out, [[1.0 - s[0], 1.0 - s[1]]], pd)[0]
+            e = float(np.abs(back - np.roll(x, (1, 1), axis=(1, 2))).max()) / sc
+            if e > TOL:
+                probs.append(("shift_additive", f"shift{s} followed by shift{(1.0 - s[0], 1.0 - s[1])} differs from roll(1,1) by {e:.3g}"))
+        if not np.array_equal(x, x0):
+            probs.append(("inputs_unmodified", "the input stack was modified"))
+        return probs, out
+    if kind == "prop":
+        _, roi, si = call
+        roi, samp = tuple(roi), HIST_SAMPLINGS[si]
+        thick = [0.5, 3.0, 3.5]
+        pt = build(roi, 4, 1, "complex", 80e3, (0.0, 0.0), seed, thick=thick, sampling=samp)
+        with library("propagators"):
+            K = pt.propagators.detach().numpy().astype(np.complex128)
+        if not check:
+            return probs, None
+        e = float(np.abs(np.abs(K) - 1).max())
+        if e > TOL:
+            probs.append(("propagator_unit_modulus", f"| |K| - 1 | = {e:.3g}"))
+        e = float(np.abs(K[0] * K[1] - K[2]).max())
+        if e > TOL:
+            probs.append(("propagation_additive", f"K(0.5) K(3) differs from K(3.5) by {e:.3g}"))
+        e = max(float(np.abs(K[i] - fresnel(roi, 80e3, (0.0, 0.0), dz, samp)).max()) for i, dz in enumerate(thick))
+        if e > TOL_KERNEL:
+            probs.append(("propagator_is_fresnel_kernel", f"kernel differs from exp(-i pi lambda dz k^2) at sampling {samp} A by {e:.3g}"))
+        U = prop_chain(pt, roi)
+        e = float(np.abs(U[2].conj().T @ U[2] - np.eye(roi[0] * roi[1])).max())
+        if e > TOL:
+            probs.append(("propagation_preserves_intensity", f"U^H U differs from I by {e:.3g}"))
+        return probs, K
+    if kind == "scatter":
+        from quantem.diffractive_imaging.ptycho_utils import sum_patches
+
+        v = call[1]
+        objshape, roi = (10, 9), (6, 6)
+        origins = [[(0, 0), (3, 4), (9, 8), (5, 2)], [(3, 3), (3, 3), (4, 3), (8, 1)], [(1, 7), (6, 0), (2, 2), (2, 2)]][v]
+        idx = raster_indices(objshape, roi, origins)  # 4 x 6 x 6 = 144 indices in every variant, different contents
+        rng = np.random.default_rng([seed, 16, 8, v])
+        y = rng.normal(size=idx.shape) + 1j * rng.normal(size=idx.shape)
+        yt, ti = torch.tensor(y), torch.tensor(idx, dtype=torch.int32)
+        y0, i0 = yt.clone(), ti.clone()
+        with library("sum_patches"):
+            got = sum_patches(yt, ti, objshape).numpy()
+            ones = sum_patches(torch.ones(idx.shape, dtype=torch.float64), ti, objshape).numpy()
+        if not check:
+            return probs, None
+        want = np.zeros(objshape[0] * objshape[1], dtype=np.complex128)
+        np.add.at(want, idx.reshape(-1), y.reshape(-1))
+        e = float(np.abs(got.reshape(-1) - want).max())
+        if e > 1e-12:
+            probs.append(("sum_patches_is_adjoint_of_extraction", f"differs from the scatter-add of the same patches by {e:.3g}"))
+        if not np.array_equal(ones.reshape(-1), np.bincount(idx.reshape(-1), minlength=want.size)):
+            probs.append(("sum_patches_hit_count", "sum_patches(ones) differs from the histogram of the indices"))
+        if not (torch.equal(yt, y0) and torch.equal(ti, i0)):
+            probs.append(("inputs_unmodified", "patches or indices were modified"))
+        return probs, got
+    if kind == "proj":
+        _, M, k = call
+        roi = (8, 5)
+        pt = build(roi, 1, M, "complex", 80e3, (0.0, 0.0), seed)
+        tt = Tally()
+        judge_projection(tt, pt, roi, M, "with_zeros", 1.0, "complex64", k, seed)
+        judge_projection(tt, pt, roi, M, "positive", 1e-3, "complex128", k, seed)
+        return [(f["cls"]["relation"], f["msg"]) for f in tt.fails], None
+    if kind == "forward":
+        roi, S, M = (7, 10), 2, 2
+        pt = build(roi, S, M, "pure_phase", 300e3, (3.0, -2.0), seed, sampling=HIST_SAMPLINGS[call[1]])
+        want, amp_dev, out = forward_totals(pt, roi, S, M, "pure_phase", seed)
+        worst = max(float(np.abs(tot / want - 1).max()) for _i, tot, _s in out)
+        if check and worst > TOL_FWD:
+            probs.append(("pure_phase_conserves_intensity", f"summed predicted intensity / sum |probe|^2 deviates from 1 by {worst:.3g}"))
+        return probs, None
+    raise ValueError(call)
+
+
+def run_call_history(t, hist, seed, alone=None):
+    restore_module_state()
+    case = {"kind": "call_history", "history": [list(c) for c in hist]}
+    last = hist[-1]
+    for c in hist[:-1]:
+        do_call(c, seed, check=False)
+    probs, out = do_call(last, seed, check=True)
+    restore_module_state()
+    t.case(key=case, nontrivial=len(hist) > 1, outcome=[last[0], len(probs)])
+    earlier = [list(c) for c in hist[:-1]]
+    for ident, msg in probs:
+        if earlier:
+            t.fail({"relation": "result_independent_of_earlier_calls", "last_call": last[0], "identity": ident}, case, f"after the calls {earlier} the call {list(last)} fails {ident}: {msg} (alone it holds)")
+        else:
+            t.fail({"relation": ident, "part": "call alone"}, case, f"call {list(last)}: {msg}")
+    if alone is not None and out is not None:
+        d = float(np.abs(out - alone).max()) / max(float(np.abs(alone).max()), 1e-30) if out.shape == alone.shape else float("inf")
+        t.stat("history_vs_alone_rel_dev", d)
+        if d > TOL and not probs:
+            t.fail({"relation": "result_independent_of_earlier_calls", "last_call": last[0], "identity": "equals_the_call_alone"}, case, f"after the calls {earlier} the result of {list(last)} differs from the same call executed alone by {d:.3g} of its maximum")
+    return out
+
+
+@guarded
+def w_call_history(item, seed=0, depth=2):
+    """item = index of the LAST call; every history of up to `depth` calls that ends with it is executed from the start-up module state."""
+    t = Tally()
+    calls = call_alphabet()
+    last = calls[item]
+    alone = run_call_history(t, [last], seed)
+    for c in calls:
+        run_call_history(t, [c, last], seed, alone)
+    if depth >= 3:
+        for a in calls:
+            for m in calls[1::4]:  # middle call: every fourth call of the alphabet (one of each kind)
+                run_call_history(t, [a, m, last], seed, alone)
+    t.sample({"kind": "call_history", "last_call": last, "depth": depth, "calls_in_alphabet": len(calls)}, cap=2)
     return t
 
 
@@ -762,6 +1004,7 @@ GEOMS = ["single_interior", "raster_interior", "raster_wrap", "repeated_patch", 
 def run(ctx):
     warnings.simplefilter("ignore")
     q = ctx.quick
+    snapshot_module_state()  # before this process has called anything in quantem
     ctx.assume(
         "Fourier translation, propagation and patch gather/scatter are linear in the data, so matrix identities on the full delta basis hold for every array of that shape (linearity itself is cross-checked on seeded stacks)",
         "continuous parameters stay on grids: integer shifts in [-3,3]^2 and a 1/4-pixel grid in [-1,1]^2 (thorough: [-4,4]^2 and 1/8 pixel); additivity pairs: every shift x the half-pixel grid plus six further vectors (thorough: every shift x the 121-vector quick alphabet); thicknesses {+-0.5, +-3, 20} A; tilts {0, (3,-2) mrad}; energies {80, 300 keV}",
@@ -775,6 +1018,12 @@ def run(ctx):
         "vanishes, and the mixed-state formula measured/|F+eps|*F returns 0 (or round-off-dependent values) there on the unchanged tree, so no exact statement exists to demand",
         "pure-phase intensity conservation presupposes |obj| = 1, i.e. no field-of-view mask applied (C10 known finding)",
         "tolerances: 1e-5 for the linear-operator identities (phase ramps and propagators are complex64 even for complex128 data), 3e-5 for the complex64 forward chain, 2e-5 for the projection",
+        "weak exit waves (scales 1e-2, 1e-3, 1e-4 with measured amplitudes of the same scale) are judged relative to the signal scale; for mixed states the tolerance is max(2e-5, 2e-7/scale) because the "
+        "library perturbs every Fourier coefficient by eps = 1e-9 (measured on the unchanged tree: 7.7e-9/scale, so the margin is 21-26x at every scale); scales below 1e-4 are not explored",
+        "call histories: the module-level and class-level containers and lru_caches of every loaded quantem module are put back to their start-up contents before each history (importlib.reload of the model "
+        "modules would break isinstance relations between them); histories are bounded at two (thorough: three) calls of a 27-call alphabet built to collide on coarse cache keys (equal axis lengths with "
+        "different samplings, equal shapes with different data); in the history part the propagator kernel IS judged against the closed-form Fresnel kernel (1e-4), because a propagator built with another "
+        "model's sampling still satisfies every group identity",
         "the closed-form Fresnel kernel is compared for information only (max_fresnel_kernel_dev), kernel values are the subject of C02",
     )
 
@@ -820,6 +1069,17 @@ def run(ctx):
     fitems = [(roi, S, M, ot, e, x) for roi in rois2 for S in (1, 2, 3, 4) for M in (1, 2, 3) for ot in ("pure_phase", "potential") for e, x in et]
     ctx.pmap(w_forward, fitems, chunk=2, label="pure-phase intensity conservation", seed=ctx.seed)
     ctx.pmap(w_proj, list(itertools.product(rois2, [1, 2, 3])), chunk=1, label="Fourier projection", seed=ctx.seed, nseeded=2 if q else 6)
+    calls = call_alphabet()
+    ctx.coverage["alphabet"]["call_histories"] = {
+        "calls": calls,
+        "depth": 2 if q else 3,
+        "middle_calls_of_triples": calls[1::4],
+        "samplings_A": [list(x) for x in HIST_SAMPLINGS],
+        "state_restored_before_each_history": [n for n, _o, _c in _STATE["containers"]] + [n for n, _f in _STATE["caches"]],
+    }
+    before = ctx.tally.n
+    ctx.pmap(w_call_history, list(range(len(calls))), chunk=1, label="call histories (every ordered pair" + ("" if q else " and triple") + ")", seed=ctx.seed, depth=2 if q else 3)
+    ctx.coverage["call_histories"] = ctx.tally.n - before
     ex = ctx.tally.extra
     for name in ("seam_missing__compute_propagator_arrays", "seam_missing__get_obj_patches"):
         if ex.get(name):
@@ -832,10 +1092,15 @@ def run(ctx):
 
 def replay(ctx, case):
     warnings.simplefilter("ignore")
+    snapshot_module_state()
     t = Tally()
     k = case["kind"]
     seed = ctx.seed
-    if k == "shift":
+    if k == "call_history":
+        hist = case["history"]
+        alone = run_call_history(Tally(), [hist[-1]], seed) if len(hist) > 1 else None
+        run_call_history(t, hist, seed, alone)
+    elif k == "shift":
         judge_shift(t, tuple(case["roi"]), case["impl"], case["pos_dtype"], tuple(case["a"]), [tuple(case["b"])] if "b" in case else [], seed)
     elif k == "shift_stack":
         judge_shift_stack(t, tuple(case["roi"]), case["impl"], case["pos_dtype"], case["dtype"], seed)
